@@ -358,13 +358,15 @@ def header_text(spec, nlev=None):
                           for lv in range(nlev)) + sp)
     else:
         L.append(" ".join(f"(({z}) ({','.join(str(g - 1) for g in grid[lv])}) ({z}))" for lv in range(nlev)) + sp)
-    L.append(" ".join(str(spec.get("step", 7)) for _ in range(nlev)) + sp)
+    # "subcycle": a sub-cycling run has taken twice as many steps on each finer level; "coord_sys": 0 cartesian, 1 RZ, 2 spherical
+    steps = [spec.get("step", 7) * (2 ** lv if spec.get("subcycle") else 1) for lv in range(nlev)]
+    L.append(" ".join(str(s) for s in steps) + sp)
     for lv in range(nlev):
         L.append(" ".join(_f(x) for x in dx[lv]) + sp)
-    L += ["0", "0"]
+    L += [str(spec.get("coord_sys", 0)), "0"]
     for lv in range(nlev):
         L.append(f"{lv} {len(spec['levels'][lv])} {t}")
-        L.append(str(spec.get("step", 7)))
+        L.append(str(steps[lv]))
         for lo, hi in spec["levels"][lv]:
             for d in range(nd):
                 L.append(f"{_f(spec['geo_low'][d] + lo[d] * dx[lv][d])} {_f(spec['geo_low'][d] + (hi[d] + 1) * dx[lv][d])}")
@@ -396,7 +398,9 @@ def materialize(spec, path, nlev=None):
         mins = [None] * len(boxes); maxs = [None] * len(boxes)
         for fno, lst in files.items():
             lst.sort()
-            fname = f"Cell_D_{fno:05d}"
+            # "stray_empty": the numbering leaves room for zero-length files no level header mentions (a parallel run
+            # leaves one per rank that owns no box of the level)
+            fname = f"Cell_D_{(2 * fno + 1) if spec.get('stray_empty') else fno:05d}"
             with open(os.path.join(ldir, fname), "wb") as bf:
                 for n_in_file, (_, bid) in enumerate(lst):
                     lo, hi = boxes[bid]
@@ -410,6 +414,9 @@ def materialize(spec, path, nlev=None):
                     truth[(lv, bid)] = np.stack(arrs, axis=-1) if nf else np.zeros([hi[d]-lo[d]+1 for d in range(nd)] + [0])
                     with np.errstate(invalid="ignore"):
                         mins[bid] = [np.min(a) for a in arrs]; maxs[bid] = [np.max(a) for a in arrs]
+        if spec.get("stray_empty"):
+            for k in sorted({2 * f for f in files} | {2 * f + 2 for f in files}):
+                open(os.path.join(ldir, f"Cell_D_{k:05d}"), "wb").close()
         with open(os.path.join(ldir, "Cell_H"), "w") as ch:
             ch.write(f"1\n1\n{nf}\n0\n({len(boxes)} 0\n")
             for lo, hi in boxes:
